@@ -46,8 +46,8 @@ func (p *Program) findIntrinsic(fn *ssa.Function, name string) intrinsicFn {
 		return f
 	}
 	// generic instantiations: strip type arguments  e.g. slices.Index[[]int,int] -> slices.Index
-	if i := strings.Index(name, "["); i > 0 {
-		if f, ok := intrinsics[name[:i]]; ok {
+	if strings.Contains(name, "[") {
+		if f, ok := intrinsics[stripTypeArgs(name)]; ok {
 			return f
 		}
 	}
@@ -279,4 +279,28 @@ func init() {
 		}
 		return e.tt.BV(64, uint64(n))
 	}
+}
+
+// stripTypeArgs removes generic type-argument lists: "(unique.Handle[T]).Value[T]" -> "(unique.Handle).Value".
+func stripTypeArgs(name string) string {
+	var sb strings.Builder
+	depth := 0
+	for i := 0; i < len(name); i++ {
+		c := name[i]
+		if c == '[' {
+			isIdent := i > 0 && (name[i-1] == '_' || name[i-1] >= 'a' && name[i-1] <= 'z' || name[i-1] >= 'A' && name[i-1] <= 'Z' || name[i-1] >= '0' && name[i-1] <= '9')
+			if depth > 0 || isIdent {
+				depth++
+				continue
+			}
+		}
+		if c == ']' && depth > 0 {
+			depth--
+			continue
+		}
+		if depth == 0 {
+			sb.WriteByte(c)
+		}
+	}
+	return sb.String()
 }
